@@ -410,16 +410,21 @@ func assertedOnPath(p *BTPath) []*ssa.TypeAssert {
 }
 
 func ruleBTWidth(c *Ctx, full bool) {
-	c.Rule("BT-WIDTH", "every accepting row of every codec builder pairs a Go kind with a codec whose methods view the destination as exactly that kind of object; all other kinds are rejected", 14)
+	c.Rule("BT-WIDTH", "every accepting row of every codec builder pairs a Go kind with a codec whose methods view the destination as exactly that kind of object; all other kinds are rejected", 12)
 	c.Rule("BT-FIXED", "a fixed codec is built for a Go type only if it is a byte array whose length equals the schema's size, and carries that same size", 1)
 	c.Rule("BT-SUB", "a wrapper codec that forwards the destination pointer unchanged wraps a codec built for the same Go type", 2)
 	P := c.P
 	e := getBT(P)
+	c.Rule("BT-WIDTH", "", 0)
+	foldedWidth := btWidthByFold(c)
 	for _, b := range e.Builders {
 		if builderIsRegistered(P, b) {
 			continue // decided by PC-REG against the registered type
 		}
 		if !b.Budget {
+			if foldedWidth {
+				continue
+			}
 			c.Rule("BT-WIDTH", "", 0)
 			c.Unk(fnKey(b.Fn)+"/paths", P.pos(b.Fn.Pos()), "path budget exceeded")
 			continue
@@ -438,6 +443,9 @@ func ruleBTWidth(c *Ctx, full bool) {
 			}
 			r := P.classifyReturn(p)
 			if r.Other != "" {
+				if foldedWidth {
+					continue
+				}
 				c.Rule("BT-WIDTH", "", 0)
 				c.Unk(fnKey(b.Fn)+"/return", P.pos(p.Ret.Pos()), "a return of this builder is not understood: "+r.Other)
 				continue
@@ -480,6 +488,9 @@ func ruleBTWidth(c *Ctx, full bool) {
 			K := rows[name] &^ (1 << nilKind)
 			if os.Getenv("DBG_BTW") != "" {
 				fmt.Fprintln(os.Stderr, "BTW", fnKey(b.Fn), name, rows[name].String(), contract.String())
+			}
+			if foldedWidth && contract.Kind != CSub {
+				continue // which Go kinds get this codec was decided on the folded dispatch table
 			}
 			switch contract.Kind {
 			case CNone:
@@ -875,7 +886,11 @@ func ruleBTArrMap(c *Ctx) {
 	e := getBT(P)
 	c.Rule("BT-ARR", "an array codec's element type, element codec, strides and backing-array allocations all refer to the same element type", 4)
 	c.Rule("BT-MAP", "a map codec's value codec is built for the map type's element type and its runtime type is the map type itself", 1)
+	fieldsByFold := btArrMapFieldsByFold(c)
 	for _, b := range e.Builders {
+		if fieldsByFold {
+			break
+		}
 		for _, p := range b.Paths {
 			r := P.classifyReturn(p)
 			if r.Codec == nil || b.TypParam == nil {
